@@ -101,13 +101,21 @@ def _real_data(model, pattern):
     return pd.DataFrame({"Days": np.arange(n) + 1, "Gas": gas, "Pressure": pr, "Extra": np.arange(n)})
 
 
-def replay_fit(model, pattern=("ok", "ok", "ok", "ok"), filt=True, window=None, pvt_desc=False):
+def _dup_labels(n):
+    """Index labels of two exports joined with pd.concat without ignore_index: 0..h-1, 0..n-h-1."""
+    h = (n + 1) // 2
+    return list(range(h)) + list(range(n - h))
+
+
+def replay_fit(model, pattern=("ok", "ok", "ok", "ok"), filt=True, window=None, pvt_desc=False, dup_labels=False):
     import numpy as np
     import pandas as pd
     import warnings
     from bluebonnet.forecast import fit_production_pressure
     from bluebonnet.fluids import build_pvt_gas
     data = _real_data(model, pattern)
+    if dup_labels:
+        data.index = _dup_labels(len(data))
     gv = {"N2": 0.0, "H2S": 0.0, "CO2": 0.0, "Gas Specific Gravity": 0.65, "Reservoir Temperature (deg F)": 200.0}
     pvt = build_pvt_gas(gv, "dry gas", 6000)
     if pvt_desc:
@@ -276,7 +284,7 @@ def job_objective(job):
         job.prove(f"objective/second evaluation: p_initial of the rebuilt flow properties[path{k}]", pr.pc + [T.b_not(T.b_and(*facts))], bound="two calls", replay=replay_obj_second)
 
 
-def job_fit(job, pattern, filt, window, pvt_desc=False):
+def job_fit(job, pattern, filt, window, pvt_desc=False, dup_labels=False):
     mod = _load()
     job.encoded(mod, "fit_production_pressure")
     job.stub("lmfit Parameters / Minimizer: contract stubs (declared limits recorded; fitted values inside them)",
@@ -290,6 +298,10 @@ def job_fit(job, pattern, filt, window, pvt_desc=False):
     days = [Q(k + 1) for k in range(n)]
     frame = pd_shim.SymFrame()
     frame.cols = {"Days": SymArray(days, "f8"), "Gas": SymArray(gas, "f8"), "Pressure": SymArray(prs, "f8"), "Extra": SymArray([Q(7)] * n, "f8")}
+    if dup_labels:
+        # two monthly exports joined with pd.concat without ignore_index: every label occurs twice; rows are days, not labels
+        frame.index_labels = _dup_labels(n)
+        job.bound(production_index="row labels 0..h-1, 0..n-h-1 (two exports concatenated, labels repeat)")
     p0, imax, inmax = fresh("p_guess", pos=True), fresh("imax", pos=True), fresh("inmax", pos=True)
     # the PVT table: a 3-row frame (pressure increasing or, `pvt_desc`, listed from high to low - the forward model only
     # interpolates it, so both are the same table); it must reach the forward model as the caller's object
@@ -300,7 +312,7 @@ def job_fit(job, pattern, filt, window, pvt_desc=False):
     pvt.cols = {c: SymArray(list(reversed(v)) if pvt_desc else list(v), "f8") for c, v in
                 (("pressure", pv), ("pseudopressure", [fresh(f"pvt_m{k_}", pos=True) for k_ in range(3)]), ("z-factor", [fresh(f"pvt_z{k_}", pos=True) for k_ in range(3)]),
                  ("compressibility", [fresh(f"pvt_c{k_}", pos=True) for k_ in range(3)]), ("viscosity", [fresh(f"pvt_mu{k_}", pos=True) for k_ in range(3)]))}
-    tag = f"fit[{','.join(short)}+{FILLER} productive days;filter={filt};window={window}{';PVT table listed high to low' if pvt_desc else ''}]"
+    tag = f"fit[{','.join(short)}+{FILLER} productive days;filter={filt};window={window}{';PVT table listed high to low' if pvt_desc else ''}{';row labels repeat' if dup_labels else ''}]"
 
     def run():
         MinimizerStub.instances.clear()
@@ -310,7 +322,7 @@ def job_fit(job, pattern, filt, window, pvt_desc=False):
                                           filter_zero_prod_days=filt, n_iter=Q(17))
         return res, list(MinimizerStub.instances), [t for t in (touched(snaps[0]), touched(snaps[1])) if t]
 
-    rp = (replay_fit, {"pattern": [("ok" if q == "sure" else q) for q in pattern], "filt": filt, "window": window, "pvt_desc": pvt_desc})
+    rp = (replay_fit, {"pattern": [("ok" if q == "sure" else q) for q in pattern], "filt": filt, "window": window, "pvt_desc": pvt_desc, "dup_labels": dup_labels})
     res = paths(job, run, [], catch=(Exception,), max_paths=64)
     for k, pr in enumerate(res):
         if pr.exc is not None:
@@ -418,7 +430,8 @@ def jobs(tier):
     out = [("objective", job_objective)]
     pats = [("ok", "ok", "ok"), ("ok", "zero", "ok", "ok"), ("ok", "nan", "ok", "ok"), ("ok", "gasnan", "ok", "ok")]
     if tier != "quick":
-        pats += [("zero", "ok", "nan", "ok", "ok"), ("ok", "ok", "ok", "ok", "ok")]
+        pats += [("zero", "ok", "nan", "ok", "ok"), ("ok", "ok", "ok", "ok", "ok"), ("ok", "zero", "zero", "ok", "gasnan", "ok", "ok"),
+                 ("nan", "ok", "ok", "zero", "ok", "ok", "ok", "ok")]
     for p in pats:
         for filt in (True, False):
             if not filt and ("nan" in p or "gasnan" in p):
@@ -426,4 +439,5 @@ def jobs(tier):
             for w in (None, 1):
                 out.append((f"fit-{'-'.join(p)}-{filt}-{w}", lambda j, p=p, f=filt, w=w: job_fit(j, p, f, w)))
     out.append(("fit-ok-ok-ok-True-None-pvt-descending", lambda j: job_fit(j, ("ok", "ok", "ok"), True, None, True)))
+    out.append(("fit-ok-zero-ok-ok-True-None-row-labels-repeat", lambda j: job_fit(j, ("ok", "zero", "ok", "ok"), True, None, False, True)))
     return out
